@@ -914,7 +914,16 @@ def f_side_compared(case, obs):
     if not needs_tables(case['prog']):
         return True
     ref = obs['pyl'] if obs['pyl'] is not None else obs['py']
-    return same_obs(ref, obs['f'])
+    if not same_obs(ref, obs['f']):
+        return False
+    # equal NON-FINITE results do not show that the two runs met the same arguments: where the languages read the program
+    # differently (literal classes, x**n) or the engines treat non-finite values differently (errors='replace': the template
+    # zeroes the stored values, BaseModel.solve_t only its local copy) the Fortran run may have needed table entries the
+    # (Python-side) recording does not have
+    nonfinite = (not obs['py']['finite']) or obs['interm_nonfinite'] or any(not _fin(x) for r in obs['f']['vals'] for x in r)
+    if nonfinite and (case['opts']['errors'] == 'replace' or classify_program(case['prog']['eqs']) & {'integer-division', 'real4-literal', 'real4-arithmetic', 'powi'}):
+        return False
+    return True
 
 
 def minmax_unspecified(case, obs):
@@ -1255,8 +1264,16 @@ def oracle(case, obs):
     ps = positions_of(case, obs)
     if any(not (0 <= p < n) for p in ps) or (case['entry'] != 'solve' and not (-n <= case['t'] < n)):
         return fails                                       # t outside the span
-    infeasible = [p for p in ps if not feasible(case, obs, p)]
     pyo, fo = py['out'], f['out']
+    # max_iter <= 0 with a feasible first period: that period decides (no pass runs; kept finding), whatever comes later
+    if case['entry'] != 'evaluate' and o['min_iter'] <= o['max_iter'] and o['max_iter'] <= 0 and ps and feasible(case, obs, ps[0]):
+        off_bad = o['offset'] != 0 and any(not (0 <= p + o['offset'] < n) for p in ps[:1])
+        if not off_bad and fo[0] == 'raise' and fo[1] == 'FortranEngineError' and not (pyo[0] == 'raise' and pyo[1] == 'FortranEngineError'):
+            if py['finite'] or pyo[0] == 'ret' or pyo[1] == 'NonConvergenceError':
+                bad('solve_t|max_iter<=0|FortranEngineError',
+                    'max_iter <= 0: Python engine records F / 0 iterations (%s), Fortran engine raises FortranEngineError (error_code stays -1)' % (pyo,))
+            return fails
+    infeasible = [p for p in ps if not feasible(case, obs, p)]
     if infeasible:
         # the Python engine rejects such a period with IndexError (fix eb62990); the template has error codes 13/14
         if case['entry'] == 'evaluate':
@@ -1270,13 +1287,6 @@ def oracle(case, obs):
             elif pyo[:2] != fo[:2] and not (pyo[0] == 'raise' and fo[0] == 'raise' and {pyo[1], fo[1]} <= {'IndexError', 'FortranEngineError', 'SolutionError'}):
                 bad('solve_t|infeasible-t|other', 'infeasible period: Python %s, Fortran %s' % (pyo, fo))
         return fails
-    if case['entry'] != 'evaluate' and o['min_iter'] <= o['max_iter'] and o['max_iter'] <= 0:
-        off_bad = o['offset'] != 0 and any(not (0 <= p + o['offset'] < n) for p in ps[:1])
-        if not off_bad and fo[0] == 'raise' and fo[1] == 'FortranEngineError' and not (pyo[0] == 'raise' and pyo[1] == 'FortranEngineError'):
-            if py['finite'] or pyo[0] == 'ret' or pyo[1] == 'NonConvergenceError':
-                bad('solve_t|max_iter<=0|FortranEngineError',
-                    'max_iter <= 0: Python engine records F / 0 iterations (%s), Fortran engine raises FortranEngineError (error_code stays -1)' % (pyo,))
-            return fails
     if (case['entry'] == 'solve' and o['offset'] != 0 and o['errors'] != 'raise' and o['min_iter'] <= o['max_iter']
             and any(not (0 <= p + o['offset'] < n) for p in ps)):
         # the template keeps going after an offset error when error_control is not 'raise'; the wrapper raises afterwards
@@ -1324,10 +1334,10 @@ def oracle(case, obs):
                                   'real4-arithmetic': 'arithmetic among literals is done in single precision in Fortran (0.5/3)'}[k])
         return fails
     # powi: x ** integer literal — repeated multiplication vs pow(): last-place differences only
-    if case['entry'] == 'evaluate' or py['passes'] <= 3:
+    if case['entry'] == 'evaluate' or py['passes'] <= 1:
         if not close:
             bad('%s|finite|powi|values' % case['entry'], 'values differ beyond rounding: %s' % _first_diff(ref, f, obs['names']))
-    if not borderline and close and not same_flow and py['passes'] <= 3:
+    if not borderline and close and not same_flow and py['passes'] <= 1:
         bad('%s|finite|powi|control' % case['entry'], 'status / iterations / return differ: %s' % _first_diff(ref, f, obs['names']))
     return fails
 
